@@ -19,6 +19,9 @@ PrintLaw ==
     ELSE IF t # Cleanup(t) THEN <<"REJECT", "trailing-zero-fraction", t>>
     ELSE IF IsIntegralNum(C.x) /\ ~d.exp /\ d.dot THEN <<"REJECT", "integral-value-printed-with-a-fraction", t>>
     ELSE IF ~Matches(C.x, C.back) THEN <<"REJECT", "numberParseFloat-of-the-text-differs", <<C.x, C.back>>>>
+    \* "exactly x" includes the sign of zero (-0 is in the property's domain): -0 prints as "-0" and comes back as -0
+    ELSE IF C.x.f = "q" /\ C.x.n = 0 /\ C.back.t = "num" /\ (("z" \in DOMAIN C.x) # ("z" \in DOMAIN C.back))
+        THEN <<"REJECT", "sign-of-zero-lost", <<t, C.x, C.back>>>>
     ELSE IF NonNeg(C.x) /\ ~LiteralOK(t) THEN <<"REJECT", "text-is-not-a-source-literal", t>>
     ELSE IF NonNeg(C.x) /\ ~Matches(C.x, C.lit) THEN <<"REJECT", "source-literal-denotes-another-number", <<C.x, C.lit>>>>
     ELSE <<"ACCEPT">>
